@@ -19,7 +19,7 @@ LEVEL = 'exploration'
 RULE = ('for every reachable shape (BFS fixed point) and every iterator / lazy-sequence form '
         '(iter, iterkeys, itervalues, iteritems, keys / values / items with no bound, a present '
         'bound, a gap bound) the default schedule steps it to exhaustion (sequences: indexes '
-        'ascending, then descending, then len); every schedule that deviates from it by at most D '
+        'ascending, then len, then descending; and indexed from the end: -1, -2, ... then len, then -1); every schedule that deviates from it by at most D '
         'mutations (insert or delete of a universe key, pop, clear, dropping the last reference to '
         'the container) placed before any step is executed; each step must yield an entry of the '
         'right form (a key of the universe / the value that key carries / the pair), end the '
@@ -115,10 +115,15 @@ def forms(ctx, t, keys, grid):
         out['values()'] = (lambda t: t.values(), 'value', True)
         out['items()'] = (lambda t: t.items(), 'item', True)
         out['items(min=gap)'] = (lambda t: t.items(gap_bound), 'item', True)
+    # the same sequences indexed from the end: seq[-1], seq[-2], ... until IndexError, len, seq[-1]
+    out['keys()[-i]'] = (lambda t: t.keys(), 'key', 'neg')
+    out['keys(max=gap)[-i]'] = (lambda t: t.keys(None, gap_bound), 'key', 'neg')
+    if ctx.is_map:
+        out['items()[-i]'] = (lambda t: t.items(), 'item', 'neg')
     return out
 
 
-REDUCED_FORMS = ('iter', 'iteritems', 'keys()', 'items()')
+REDUCED_FORMS = ('iter', 'iteritems', 'keys()', 'items()', 'keys()[-i]')
 
 
 def mutations(ctx, keys, grid, reduced):
@@ -211,7 +216,10 @@ def run_schedule(ctx, fam, hist, grid, form, devs, maxsteps, guards):
         """r: ('ok', value) | ('exc', name)"""
         if r[0] == 'exc':
             guards['step:' + r[1]] += 1
-            if r[1] in ('StopIteration', 'IndexError', 'RuntimeError'):
+            # an iterator ends with StopIteration; indexing a sequence past its end is IndexError
+            # (a StopIteration escaping from seq[i] silently ends the caller's own loop)
+            if r[1] in (('IndexError', 'RuntimeError') if is_seq else
+                        ('StopIteration', 'IndexError', 'RuntimeError')):
                 return None
             return 'step raised %s' % r[1]
         guards['step:yield'] += 1
@@ -237,6 +245,26 @@ def run_schedule(ctx, fam, hist, grid, form, devs, maxsteps, guards):
             problem = judge(r)
             if problem or r[0] == 'exc':
                 break
+    elif is_seq == 'neg':
+        i = -1
+        while -i <= maxsteps and not problem:
+            before_step()
+            r = O.outcome(lambda: it[i])
+            trace.append(r if r[0] == 'exc' else ('ok',))
+            problem = judge(r)
+            if r[0] == 'exc':
+                break
+            i -= 1
+        if not problem:
+            before_step()
+            r = O.outcome(len, it)
+            if r[0] == 'exc' and r[1] not in ('RuntimeError', 'IndexError'):
+                problem = 'len() raised %s' % r[1]
+        if not problem:
+            before_step()
+            r = O.outcome(lambda: it[-1])
+            trace.append(r if r[0] == 'exc' else ('ok',))
+            problem = judge(r)
     else:
         i = 0
         while i < maxsteps and not problem:
@@ -332,6 +360,8 @@ def job(fam, kind, impl, sizes, n, D, thin=None):
             scheds += [((p, m),) for p in positions for m in (reduced if thin else full)]
             if fname in REDUCED_FORMS and not (ctx.is_map and fname in ('iter', 'keys()')):
                 for k in range(2, D + 1):
+                    if k >= 2 and fname == 'keys()[-i]' and ctx.is_map:
+                        continue
                     if k == 3 and fname not in ('iter', 'items()'):
                         continue
                     for ps in itertools.combinations_with_replacement(positions[:maxsteps + 2], k):
